@@ -153,7 +153,14 @@ def enc_graph(g) -> list[str]:
     return t
 
 
+# which revision of two repaired spots the model restates (F1: _match_node fails the match on missing outputs,
+# /repo 778bd07; F7a: BacktrackingOr.clone without tag_var, /repo e372708).  Pinned to the repaired, committed
+# revision; c06.check_fixed_findings() reports a VIOLATION if the working tree shows the pre-fix behaviour.
+FLAGS = "11"
+
+
 def case_line(mode: str, case, pattern_tokens=None, graph_tokens=None) -> str:
+    mode = f"{mode}/{FLAGS}"
     pt = pattern_tokens if pattern_tokens is not None else enc_pattern(case["pattern"])
     gt = graph_tokens if graph_tokens is not None else enc_graph(case["graph"])
     return " ".join([mode, _b(case["rm"]), str(case["root"])] + pt + gt)
